@@ -298,7 +298,10 @@ def h_uri_name(eng, case):
         if isinstance(k, (list, tuple)):
             # a fixed beginning (periods, '%', '=' ... - characters the URI syntax gives a meaning to) + k[1] symbolic octets
             pre = list(k[0].encode())
-            comps.append(bwrap([8, len(pre) + k[1]] + pre + blist(eng.bytes('c%d' % i, k[1]))))
+            ln = len(pre) + k[1]
+            hdr = [ln] if ln <= 0xFC else ([0xFD] + list(ln.to_bytes(2, 'big')) if ln <= 0xFFFF else
+                                           [0xFE] + list(ln.to_bytes(4, 'big')))
+            comps.append(bwrap([8] + hdr + pre + blist(eng.bytes('c%d' % i, k[1]))))
             continue
         comps.append(env.concrete_component(8, b'') if k == 0 else
                      bwrap([8, k] + blist(eng.bytes('c%d' % i, k))))
@@ -430,6 +433,10 @@ def cases(tier, seed):
             if quick and lens[0] == 1 and pre in ('.', '....'):
                 continue
             cs.append(('uri_name', {'lens': lens}, {'weight': 4}))
+    # long components made of plain characters: the component's own length field changes width at 253 and 65536
+    for L in (252, 253, 254, 255, 256, 300) + (() if quick else (65535, 65536)):
+        cs.append(('uri_name', {'lens': [['a' * L, 0]]}, {'weight': 3}))
+        cs.append(('uri_name', {'lens': [1, ['b' * L, 0], 0]}, {'weight': 3}))
     if not quick:
         cs.append(('uri_name', {'lens': [1, 1]}, {'weight': 30, 'split_depth': 2}))
     return cs
